@@ -127,6 +127,9 @@ func Sparse6Decode(s string) (*SparseGraph, error) {
 	}
 
 	//Check the initial byte and remove it.
+	if len(s) == 0 {
+		return &SparseGraph{}, errors.New("String too short - missing the initial :")
+	}
 	if s[0] != 58 {
 		return &SparseGraph{}, fmt.Errorf("Incorrect first character. Expected: : Found: %v", s[0])
 	}
@@ -142,13 +145,16 @@ func Sparse6Decode(s string) (*SparseGraph, error) {
 	var n uint64
 	i := 0
 
+	if len(s) == 0 {
+		return &SparseGraph{}, errors.New("String too short - unable to decode n")
+	}
+
 	if s[0] != 126 {
 		n = uint64(s[0] - 63)
 		i = 1
+	} else if len(s) < 4 {
+		return &SparseGraph{}, errors.New("String too short - unable to decode n")
 	} else if s[1] != 126 {
-		if len(s) < 4 {
-			return &SparseGraph{}, errors.New("String too short - unable to decode n")
-		}
 		n = (uint64(s[1]-63) << 12) + (uint64(s[2]-63) << 6) + uint64(s[3]-63)
 		i = 4
 	} else {
@@ -160,35 +166,30 @@ func Sparse6Decode(s string) (*SparseGraph, error) {
 	}
 
 	g := NewSparse(int(n), nil)
+	if n == 0 {
+		return g, nil
+	}
 	v := 0
 	k := 64 - bits.LeadingZeros64(n-1)
-	var bitIndex uint
-	for {
-		b := ((s[i] - 63) >> (5 - bitIndex)) & 1
-		bitIndex++
-		if bitIndex == 6 {
-			bitIndex = 0
-			i++
-			if i >= len(s) {
-				return g, nil
-			}
-		}
-		if b == 1 {
+	//The remaining bytes hold 6 bits each. An incomplete (b, x) pair at the end is padding and is discarded.
+	numBits := 6 * (len(s) - i)
+	pos := 0
+	readBit := func() int {
+		b := ((s[i+pos/6] - 63) >> uint(5-pos%6)) & 1
+		pos++
+		return int(b)
+	}
+	for pos+1+k <= numBits {
+		if readBit() == 1 {
 			v++
 		}
 		x := 0
 		for j := 0; j < k; j++ {
-			if ((s[i]-63)>>(5-bitIndex))&1 == 1 {
-				x |= 1 << uint(k-j-1)
-			}
-			bitIndex++
-			if bitIndex == 6 {
-				bitIndex = 0
-				i++
-				if i >= len(s) {
-					return g, nil
-				}
-			}
+			x = x<<1 | readBit()
+		}
+		if x >= int(n) || v >= int(n) {
+			//Only padding can refer to a vertex which doesn't exist.
+			break
 		}
 		if x > v {
 			v = x
@@ -196,6 +197,7 @@ func Sparse6Decode(s string) (*SparseGraph, error) {
 			g.AddEdge(v, x)
 		}
 	}
+	return g, nil
 }
 
 //Sparse6Encode returns an encoding of g. Note that the encoding is not unique but this should align with the format used by showg, geng, nauty etc.
